@@ -90,6 +90,25 @@ func (c *Ctx) ResetFor(property string) {
 	c.Start = time.Now()
 }
 
+// Dedupe merges obligations recorded twice under the same rule and construct
+// (a rule shared by two properties that were both run): the worse verdict stays.
+func (c *Ctx) Dedupe() {
+	rank := map[Status]int{OK: 0, Known: 1, Undecided: 2, Violation: 3}
+	idx := map[string]*Obligation{}
+	var out []*Obligation
+	for _, o := range c.Obls {
+		if x, ok := idx[o.Key()]; ok {
+			if rank[o.Status] > rank[x.Status] {
+				x.Status, x.Pos, x.Detail = o.Status, o.Pos, o.Detail
+			}
+			continue
+		}
+		idx[o.Key()] = o
+		out = append(out, o)
+	}
+	c.Obls = out
+}
+
 // Doc registers the one-line description of a rule and its instance floor.
 func (c *Ctx) Doc(rule, doc string, floor int) {
 	c.RuleDocs[rule] = doc
